@@ -367,10 +367,20 @@ class GenSource:
         place = self.place(w)
         bufid = place["buf"] if isinstance(place, dict) and "buf" in place else None
         value = self.vg(w, bufid).gen(t, top=True)
+        if M.spec_leaves(value) > 1200 or self.world_leaves(w) > 6000:
+            # keep the per-step full re-read affordable: a small scalar array instead
+            small = [i for i in tops if w.schema[i]["k"] == "array" and w.schema[w.schema[i]["item"]]["k"] == "sc" and len(w.schema[i]["shape"]) == 1]
+            if not small or self.world_leaves(w) > 12000:
+                return None
+            t = rng.choice(small)
+            value = self.vg(w, bufid).gen(t, top=True)
         form = "single"
         if w.schema[t]["k"] == "struct" and "d" in value and rng.random() < 0.4:
             form = "kwargs"
         return {"op": "construct", "type": t, "value": value, "place": place, "form": form, "id": self.new_id()}
+
+    def world_leaves(self, w):
+        return sum(M.node_leaves(w.schema, o.t, o.node) for o in w.live_objs())
 
     def _pick_path(self, w, want):
         """Pick (obj, path, type, node) whose type kind is in `want`."""
@@ -494,6 +504,11 @@ class GenSource:
         if not live:
             return None
         o = rng.choice(live)
+        if M.node_leaves(w.schema, o.t, o.node) > 1200 or self.world_leaves(w) > 6000:
+            small = [x for x in live if M.node_leaves(w.schema, x.t, x.node) <= 200]
+            if not small or self.world_leaves(w) > 12000:
+                return None
+            o = rng.choice(small)
         r = rng.random()
         if r < 0.45:
             place = {"buf": w.bufs.index(o.buf) if o.buf in w.bufs[: len(w.spec["buffers"])] else 0, "how": "default"}
@@ -537,7 +552,7 @@ class GenSource:
     def restart(self, w):
         rng = self.rng
         live = [o for o in w.live_objs() if w.schema[o.t]["k"] != "str" and _picklable(w, o.t)]
-        if not live:
+        if not live or self.world_leaves(w) > 6000:
             return None
         k = rng.choice([1, 1, 2, 3])
         objs = rng.sample(live, min(k, len(live)))
